@@ -15,8 +15,10 @@ import (
 // PathPlan: source content, collapse level (-1: keep in memory), requested
 // keys (indexes into WKeys; >= 100: absent filler keys), mirrored operations.
 type PathPlan struct {
+	Uni   string   `json:"uni,omitempty"` // key universe (see UniverseKeys)
+	Sub   []int    `json:"sub,omitempty"`
 	Init  [][2]any `json:"init"`  // [k, v]
-	Level int      `json:"level"` // -1 in memory, otherwise Commit(level) to storage first
+	Level int      `json:"level"` // -1 in memory; L: Commit(L) to storage first; 100+L: Commit(L), then re-opened from (root, weight)
 	Req   []int    `json:"req"`
 	Ops   []WOp    `json:"ops"` // update / delete on requested keys
 }
@@ -35,12 +37,6 @@ func fillerKey(i int) []byte {
 	return k
 }
 
-func keyOf(i int) []byte {
-	if i >= 100 {
-		return fillerKey(i - 100)
-	}
-	return WKeys[i]
-}
 
 // RunPath executes one export/import/mirror scenario.
 func RunPath(w *tr.Writer, in *tr.Interner, st *PathStats, tid int, p PathPlan) {
@@ -48,6 +44,13 @@ func RunPath(w *tr.Writer, in *tr.Interner, st *PathStats, tid int, p PathPlan) 
 	st.Traces++
 	db := &memKV{m: map[string][]byte{}}
 	full := wmpt.New(nil, db)
+	ukeys := UniverseKeys(p.Uni, p.Sub)
+	keyOf := func(i int) []byte {
+		if i >= 100 {
+			return fillerKey(i - 100)
+		}
+		return ukeys[i]
+	}
 	var initEv []any
 	for _, kv := range p.Init {
 		k := int(toF(kv[0]))
@@ -62,11 +65,14 @@ func RunPath(w *tr.Writer, in *tr.Interner, st *PathStats, tid int, p PathPlan) 
 		initEv = []any{}
 	}
 	if p.Level >= 0 {
-		b, err := full.Commit(p.Level)
+		b, err := full.Commit(p.Level % 100)
 		if err != nil {
 			panic(err)
 		}
 		b.Commit(true)
+		if p.Level >= 100 && full.Weight() > 0 {
+			full = wmpt.New(wmpt.NewHashNode(full.Root(), full.Weight()), db)
+		}
 	}
 	emit := func(ev map[string]any) {
 		ev["tid"] = tid
@@ -119,7 +125,7 @@ func RunPath(w *tr.Writer, in *tr.Interner, st *PathStats, tid int, p PathPlan) 
 	}
 	obs(ev)
 	emit(ev)
-	sig := fmt.Sprintf("%d/%d/%d/", len(p.Init), p.Level, len(p.Req))
+	sig := fmt.Sprintf("%s/%d/%d/%d/", p.Uni, len(p.Init), p.Level, len(p.Req))
 	if ev["import"] == "ok" {
 		for _, op := range p.Ops {
 			ev := map[string]any{"op": op.Op, "k": op.K, "v": op.V}
@@ -157,7 +163,7 @@ func RunPath(w *tr.Writer, in *tr.Interner, st *PathStats, tid int, p PathPlan) 
 	// final independent root of the full trie's content as observed through proofs
 	{
 		r := &wrun{w: w, in: in, st: &WStats{Distinct: map[string]bool{}, Modes: map[string]int{}}, tid: tid, kidx: map[string]int{}}
-		for i, k := range WKeys {
+		for i, k := range ukeys {
 			r.kidx[string(k)] = i
 		}
 		for i := 0; i < 20; i++ {
@@ -194,6 +200,7 @@ func toF(x any) float64 {
 // GenPathPlan draws a random scenario.
 func GenPathPlan(r *rand.Rand) PathPlan {
 	var p PathPlan
+	p.Uni, p.Sub = PickUniverse(r, len(WKeys))
 	nk := r.Intn(len(WKeys) + 1)
 	if r.Intn(8) == 0 {
 		nk = 1
@@ -216,7 +223,7 @@ func GenPathPlan(r *rand.Rand) PathPlan {
 	for _, k := range perm {
 		p.Init = append(p.Init, [2]any{k, val(k)})
 	}
-	p.Level = []int{-1, -1, 0, 1, 2, 3, 64}[r.Intn(7)]
+	p.Level = []int{-1, -1, 0, 1, 2, 3, 64, 100, 101, 102}[r.Intn(10)]
 	nreq := r.Intn(15)
 	if r.Intn(3) == 0 {
 		nreq = 9 + r.Intn(6) // both sides of the parallel-collection threshold
@@ -235,9 +242,11 @@ func GenPathPlan(r *rand.Rand) PathPlan {
 		}
 	}
 	if len(p.Req) > 0 {
-		for i := 0; i < r.Intn(8); i++ {
+		nops := r.Intn(8)
+		delBias := 3 - r.Intn(2)*2 // every other plan deletes mostly: merges with siblings that were not requested
+		for i := 0; i < nops; i++ {
 			k := p.Req[r.Intn(len(p.Req))]
-			if r.Intn(3) == 0 {
+			if r.Intn(delBias) == 0 {
 				p.Ops = append(p.Ops, WOp{Op: "delete", K: k})
 			} else {
 				p.Ops = append(p.Ops, WOp{Op: "update", K: k, V: val(k)})
